@@ -51,6 +51,7 @@ def is_cyclic_error(ex):
 
 def check_design(name, d, expect, tier, acc, only_group=None):
   base = dict(design=name, ir=d, expect=expect, tier=tier)
+  dcls = name.split(":")[1] if ":" in name else name       # design class in every signature (cyc:<class>:...)
   L = 2 if tier == "quick" else 3
   seqs = input_seqs(d, L)
   if tier == "quick": seqs = seqs[:: max(1, len(seqs) // 64)] if expect in ("diverge",) else seqs
@@ -61,7 +62,7 @@ def check_design(name, d, expect, tier, acc, only_group=None):
       try:
         dut = Dut(d, g, shuffle=(lambda n: 0))
         dut.close()
-        acc.violation(f"{g}:cyclic-design-accepted", dict(base, group=g, hist=[]), "rejected with an error", "scheduled", f"expect={expect}")
+        acc.violation(f"{g}:cyclic-design-accepted:{dcls}", dict(base, group=g, hist=[]), "rejected with an error", "scheduled", f"expect={expect}")
       except Exception as ex:
         acc.count("rejected"); acc.count("rejected_with_" + type(ex).__name__)
       acc.count("executions")
@@ -71,7 +72,7 @@ def check_design(name, d, expect, tier, acc, only_group=None):
       try:
         _run_cyclic(name, d, expect, g, seqs, acc, base)
       except Timeout:
-        acc.violation(f"{g}:hang", dict(base, group=g, hist=[]), "returns or raises", "no return within the time budget")
+        acc.violation(f"{g}:hang:{dcls}", dict(base, group=g, hist=[]), "returns or raises", "no return within the time budget")
       finally:
         signal.alarm(0)
   finally:
@@ -81,17 +82,18 @@ def check_design(name, d, expect, tier, acc, only_group=None):
 
 
 def _run_cyclic(name, d, expect, g, seqs, acc, base):
+  dcls = name.split(":")[1] if ":" in name else name
   try:
     dut = Dut(d, g, shuffle=(lambda n: 0))
   except Exception as ex:
     if expect == "once" and is_cyclic_error(ex):
       acc.count("once_rejected"); acc.count("executions")
       return
-    acc.violation(f"{g}:scheduling-raised", dict(base, group=g, hist=[]), "schedulable" if expect != "once" else "UpblkCyclicError", repr(ex)[:200])
+    acc.violation(f"{g}:scheduling-raised:{dcls}", dict(base, group=g, hist=[]), "schedulable" if expect != "once" else "UpblkCyclicError", repr(ex)[:200])
     return
   try:
     if expect == "once":
-      acc.violation(f"{g}:update_once-in-cycle-accepted", dict(base, group=g, hist=[]), "UpblkCyclicError", "scheduled")
+      acc.violation(f"{g}:update_once-in-cycle-accepted:{dcls}", dict(base, group=g, hist=[]), "UpblkCyclicError", "scheduled")
       return
     top = dut.top
     blocks = [b for b in top._dag.final_upblks if b not in top.get_all_update_ff()]
@@ -115,7 +117,7 @@ def _run_cyclic(name, d, expect, g, seqs, acc, base):
             dut.close(); dut = Dut(d, g, shuffle=(lambda n: 0)); top = dut.top
             blocks = [b for b in top._dag.final_upblks if b not in top.get_all_update_ff()]
             break
-          acc.violation(f"{g}:{expect}:eval-raised", dict(base, group=g, hist=hist), "returns", repr(raised)[:200])
+          acc.violation(f"{g}:{expect}:eval-raised:{dcls}", dict(base, group=g, hist=hist), "returns", repr(raised)[:200])
           return
         # returned: must be a fixed point, whatever the kind of loop
         before = dut.obs()
@@ -123,7 +125,7 @@ def _run_cyclic(name, d, expect, g, seqs, acc, base):
         after = dut.obs()
         if after != before:
           ch = [(ir.inst_name(k), before[k], after[k]) for k in before if before[k] != after[k]]
-          acc.violation(f"{g}:{expect}:returned-unstable-state", dict(base, group=g, hist=hist), "fixed point", ch[:5],
+          acc.violation(f"{g}:{expect}:returned-unstable-state:{dcls}", dict(base, group=g, hist=hist), "fixed point", ch[:5],
                         "re-running the update blocks after sim_eval_combinational changed signals")
           return
         acc.count("fixpoints_checked")
@@ -132,7 +134,7 @@ def _run_cyclic(name, d, expect, g, seqs, acc, base):
           ro = ref.obs()
           if ro != before:
             ch = [(ir.inst_name(k), ro[k], before[k]) for k in ro if ro[k] != before[k]]
-            acc.violation(f"{g}:false-loop:wrong-values", dict(base, group=g, hist=hist), {n: e for n, e, o in ch[:5]}, {n: o for n, e, o in ch[:5]},
+            acc.violation(f"{g}:false-loop:wrong-values:{dcls}", dict(base, group=g, hist=hist), {n: e for n, e, o in ch[:5]}, {n: o for n, e, o in ch[:5]},
                           "values differ from the equivalent acyclic design")
             return
     acc.count("evaluations", nsteps)
